@@ -240,10 +240,10 @@ impl Scenario {
             let pid = self.proofs.id(&pb);
             let puzzle = tmelcrypt::hash_keyed(seed.hash(), &stdcode::serialize(&cid).unwrap());
             let p2 = proof.clone();
-            let v = catch_unwind(AssertUnwindSafe(|| {
-                if p2.verify(&puzzle, difficulty as usize, melstf::LegacyMelPowHash) { 1 }
-                else if p2.verify(&puzzle, difficulty as usize, melstf::Tip910MelPowHash) { 2 } else { 0 }
-            })).unwrap_or(3);
+            // as proof_is_tip910 does: a verification that panics counts as failed
+            let legacy = catch_unwind(AssertUnwindSafe(|| p2.verify(&puzzle, difficulty as usize, melstf::LegacyMelPowHash))).unwrap_or(false);
+            let v = if !(1..=64).contains(&difficulty) { 0 } else if legacy { 1 }
+                else if catch_unwind(AssertUnwindSafe(|| p2.verify(&puzzle, difficulty as usize, melstf::Tip910MelPowHash))).unwrap_or(false) { 2 } else { 0 };
             let key = (pid, seed.hash(), cid, difficulty);
             if !self.tables.melpow.iter().any(|(k, _)| *k == key) { self.tables.melpow.push((key, v)); }
         }
@@ -358,6 +358,10 @@ impl Scenario {
             self.tables.reward.insert(h, id.txhash.0);
             self.dict.coin(id);
             self.dict.cov(a.unwrap().reward_dest);
+        }
+        {   // known-finding classes that depend only on the state being sealed
+            let legacy = matches!(u.verif_network(), NetID::Mainnet | NetID::Testnet);
+            if legacy && h < 978392 && u.verif_transactions().iter().any(|t| t.kind == TxKind::LiqDeposit) { self.tag("F19"); }
         }
         let res = catch_unwind(AssertUnwindSafe(move || { let s = u.seal(a); let hd = s.header(); (s, hd) }));
         match res {
